@@ -440,6 +440,14 @@ pub fn exec_line(line: &str) -> String {
     let op = toks[0].to_string();
     let suite = toks[1].to_string();
     let a = A(parse_args(&toks[2..]));
+    if op.starts_with("tr_") || op == "bip341_output" || op == "bip340_verify" {
+        let r = std::panic::catch_unwind(std::panic::AssertUnwindSafe(|| exec_tr(&op, &a)));
+        return match r {
+            Ok(Some(s)) => s,
+            Ok(None) => "bad-op".into(),
+            Err(_) => "panic".into(),
+        };
+    }
     if op == "ext_verify" {
         let r = std::panic::catch_unwind(std::panic::AssertUnwindSafe(|| ext_verify(&suite, &a)));
         return match r {
@@ -509,5 +517,88 @@ fn ext_verify(suite: &str, a: &A) -> Option<String> {
             }
         }
         _ => "ok none".into(),
+    })
+}
+
+/// Taproot-only entry points of frost-secp256k1-tr, plus independent BIP-340/341 computations
+/// with libsecp256k1 (`secp256k1` crate) and `sha2`.
+fn exec_tr(op: &str, a: &A) -> Option<String> {
+    use frost_secp256k1_tr as tr;
+    use frost_secp256k1_tr::keys::{EvenY, Tweak};
+    type C = frost_secp256k1_tr::Secp256K1Sha256TR;
+    let root_v;
+    let root: Option<&[u8]> = match a.get("root") {
+        None | Some("none") => None,
+        Some(h) => {
+            root_v = unhx(h)?;
+            Some(&root_v[..])
+        }
+    };
+    Some(match op {
+        "tr_sign" => {
+            let msg = unhx(a.get("msg")?)?;
+            let pkg = SigningPackage::<C>::new(p_comms::<C>(a.get("comms")?)?, &msg);
+            let nonces = p_nonces::<C>(a.get("nonces")?)?;
+            let kp = p_kp::<C>(a.get("kp")?)?;
+            f_out(tr::round2::sign_with_tweak(&pkg, &nonces, &kp, root), |s| {
+                format!("z={}", hx(&s.serialize()))
+            })
+        }
+        "tr_aggregate" => {
+            let msg = unhx(a.get("msg")?)?;
+            let pkg = SigningPackage::<C>::new(p_comms::<C>(a.get("comms")?)?, &msg);
+            let shares: BTreeMap<_, _> = p_recs(p_ff::<C>, a.get("shares")?)?
+                .into_iter()
+                .map(|(i, z)| (i, sigshare::<C>(&z)))
+                .collect();
+            let pkp = p_pkp::<C>(a.get("pkp")?)?;
+            f_out(tr::aggregate_with_tweak(&pkg, &shares, &pkp, root), |s| format!("sig={}", f_sig(&s)))
+        }
+        "tr_tweak_kp" => format!("ok kp={}", f_kp(&p_kp::<C>(a.get("kp")?)?.tweak(root))),
+        "tr_tweak_pkp" => format!("ok pkp={}", f_pkp(&p_pkp::<C>(a.get("pkp")?)?.tweak(root))),
+        "tr_even_kp" => format!("ok kp={}", f_kp(&p_kp::<C>(a.get("kp")?)?.into_even_y(None))),
+        "tr_even_pkp" => format!("ok pkp={}", f_pkp(&p_pkp::<C>(a.get("pkp")?)?.into_even_y(None))),
+        "bip340_verify" => {
+            // libsecp256k1: pk = 32-byte x-only key, sig = 64 bytes
+            let pk = unhx(a.get("pk")?)?;
+            let msg = unhx(a.get("msg")?)?;
+            let sig = unhx(a.get("sig")?)?;
+            let secp = secp256k1::Secp256k1::verification_only();
+            let Ok(xonly) = secp256k1::XOnlyPublicKey::from_byte_array(pk.as_slice().try_into().ok()?) else {
+                return Some("err Bip340Invalid culprits=".into());
+            };
+            let s = secp256k1::schnorr::Signature::from_byte_array(sig.as_slice().try_into().ok()?);
+            match secp.verify_schnorr(&s, &msg, &xonly) {
+                Ok(()) => "ok".into(),
+                Err(_) => "err Bip340Invalid culprits=".into(),
+            }
+        }
+        "bip341_output" => {
+            // Q = lift_x(x(P)) + int(hashTapTweak(x(P) || root)) G, computed with libsecp256k1 + sha2
+            use sha2::{Digest, Sha256};
+            let vk = unhx(a.get("vk")?)?;
+            if vk.len() != 33 {
+                return None;
+            }
+            let secp = secp256k1::Secp256k1::verification_only();
+            let xonly = secp256k1::XOnlyPublicKey::from_byte_array(vk[1..].try_into().ok()?).ok()?;
+            let tag = Sha256::digest(b"TapTweak");
+            let mut h = Sha256::new();
+            h.update(tag);
+            h.update(tag);
+            h.update(&vk[1..]);
+            if let Some(r) = root {
+                h.update(r);
+            }
+            let t: [u8; 32] = h.finalize().into();
+            match secp256k1::Scalar::from_be_bytes(t) {
+                Ok(sc) => match xonly.add_tweak(&secp, &sc) {
+                    Ok((q, _parity)) => format!("ok q={}", hx(&q.serialize())),
+                    Err(_) => "err Bip341Failed culprits=".into(),
+                },
+                Err(_) => "err Bip341Failed culprits=".into(),
+            }
+        }
+        _ => return None,
     })
 }
